@@ -25,7 +25,9 @@ vars == <<l, prng, t, pend, par, bad, ndraw>>
 
 Init == LoadLog /\ l = 1 /\ prng = 0 /\ t = 0 /\ pend = <<-1, -1>> /\ par = [k |-> 0, r |-> 0, N1 |-> 0] /\ bad = FALSE /\ ndraw = 0
 
-Msg(name) == PrintT(<<"VMSG", l, ndraw, "C05", name, 3, "draw-level">>)
+\* internal events only: a mismatch means the transcription of the construction no longer describes the
+\* code (DRIFT); whether the equations are the RFC 5170 ones is judged on the matrix itself (PchkTrace)
+Msg(name) == PrintT(<<"DRIFT", l, ndraw, name>>)
 
 Next ==
     /\ l <= Len(TraceLog)
